@@ -9,6 +9,49 @@ func init() {
 	verifRegister("verifC04Ops", verifC04Ops)
 	verifRegister("verifC04Collections", verifC04Collections)
 	verifRegister("verifC04SetVal", verifC04SetVal)
+	verifRegister("verifC04Refine", verifC04Refine)
+}
+
+// verifC04Refine: refining a marked value (unknown, already refined, or known) keeps its marks and computes what
+// refining the unmarked value computes.
+func verifC04Refine() {
+	var base Value
+	switch vChoice("base", 6) {
+	case 0:
+		base = UnknownVal(Number)
+	case 1:
+		base = UnknownVal(Number).Refine().NumberRangeLowerBound(NumberIntVal(vInt("lo0", -2, 2)), vBool("inc0")).NewValue()
+	case 2:
+		base = NumberIntVal(vInt("k", -2, 2))
+	case 3:
+		base = UnknownVal(String).Refine().StringPrefixFull("a").NewValue()
+	case 4:
+		base = UnknownVal(List(String)).Refine().CollectionLengthLowerBound(1).NewValue()
+	default:
+		base = UnknownVal(Object(map[string]Type{"a": String})).RefineNotNull()
+	}
+	marked := c04Marked("v", base, "m1", "m2")
+	call := vChoice("call", 3)
+	hi, hiinc, ln, pfx := vInt("hi", -2, 3), vBool("hiinc"), int(vInt("len", 0, 3)), vStr("p", 1, 'a', 'b')
+	refine := func(v Value) Value {
+		b := v.Refine()
+		switch call {
+		case 0:
+			b = b.NotNull()
+		case 1:
+			if v.Type() == Number {
+				b = b.NumberRangeUpperBound(NumberIntVal(hi), hiinc)
+			} else if v.Type().IsCollectionType() {
+				b = b.CollectionLengthUpperBound(ln)
+			} else if v.Type() == String {
+				b = b.StringPrefixFull(pfx)
+			} else {
+				b = b.NotNull()
+			}
+		}
+		return b.NewValue()
+	}
+	c04Compare(func(a []Value) Value { return refine(a[0]) }, []Value{marked}, []Value{marked})
 }
 
 var c04MarkNames = []string{"m1", "m2", "m3"}
@@ -168,9 +211,9 @@ func verifC04Collections() {
 	coll = c04Marked("c", coll, cm...)
 	var key Value
 	if kind <= 1 {
-		key = c04ScalarM("k", Number, 1+3*vTier())
+		key = c04ScalarM("k", Number, 2+2*vTier())
 	} else {
-		key = c04ScalarM("k", String, 1+3*vTier())
+		key = c04ScalarM("k", String, 2+2*vTier())
 	}
 	key = c04Marked("kmark", key, km...)
 	switch vChoice("op", 8) {
